@@ -108,7 +108,9 @@ def decoy_block():
                E('playlist', E('item', E('itemID', text='GFX1')), E('item', E('itemID', text='n1'))),
                E('roSlug', text='decoy slug'), E('StoryDuration', text='999'), E('p', text='(decoy note)'),
                # an element with the name of the completion record, and the message element names, where no search belongs
-               E('mosromgrmeta', E('roDelete', E('roID', text='RO1'))), E('roCreate', E('roID', text='DECOY'), E('story', E('storyID', text='N1')))))
+               E('mosromgrmeta', E('roDelete', E('roID', text='RO1'))), E('roCreate', E('roID', text='DECOY'), E('story', E('storyID', text='N1'))),
+               # ... and the names of the envelope's own fields
+               E('header', E('messageID', text='77'), E('mosID', text='decoy.mos'), E('ncsID', text='decoy.ncs'), E('roEdDur', text='00:59:59'))))
 
 
 def add_decoys(kids):
@@ -409,7 +411,7 @@ def merge_cases_decoy_payload():
 # IDs in the style of newsroom systems: the part after the last comma is not the ID
 VENDOR_STORY_IDS = ['2012R2ENPS8VM;P_ENPSNEWS\\W;696F8FBE-1,4.15529413.1', 'OM_4.15529414,4.15529413.1', 'x,y,4.15529413.1']
 VENDOR_ITEM_IDS = ['ITEM;1,7', 'ITEM;2,7']
-SPECIAL_STORY_IDS = ["O'NEIL;2", 'a"b', 'x]y[z', 'a/b.c', '*']      # IDs are free text
+SPECIAL_STORY_IDS = ["O'NEIL;2", 'a"b', 'x]y[z', 'a/b.c', '*', '{3F2504E0-4F89}', '%s %(id)s {0} }{']      # IDs are free text
 SPECIAL_ITEM_IDS = ["Jo's clip", 'i[1]', '@id', 'a=b']
 
 
@@ -426,6 +428,14 @@ def merge_cases_special_ids():
         yield {'ro': vro, 'msg': to_text(doc), 'meta': dict(meta, cls=cls, n=3, layout='vendor-ids')}
     for cls, doc, meta in item_level_messages([VENDOR_STORY_IDS[2]], VENDOR_ITEM_IDS, max_src=2):
         yield {'ro': vro, 'msg': to_text(doc), 'meta': dict(meta, cls=cls, n=3, para='vendor-ids')}
+    # inserts that carry a story whose ID (with characters that mean something to str.format / % / paths) is already there
+    for sids_ in (SPECIAL_STORY_IDS[:3], SPECIAL_STORY_IDS[4:7]):
+        ro_ = to_text(make_ro(sids_, layout='plain'))
+        for dup in sids_:
+            yield {'ro': ro_, 'msg': to_text(story_insert(5, sids_[1], [new_story(dup), new_story('N9')])),
+                   'meta': {'cls': 'StoryInsert', 'n': 3, 'layout': 'special-ids-dup'}}
+            yield {'ro': ro_, 'msg': to_text(element_action(5, 'INSERT', [ref('storyID', sids_[1])], [[new_story('N9'), new_story(dup)]])),
+                   'meta': {'cls': 'EAStoryInsert', 'n': 3, 'layout': 'special-ids-dup'}}
     # the odd ID named but absent, in k-th position of a delete
     plain = to_text(make_ro(['A', 'B', 'C'], layout='plain'))
     for ids in (["O'NEIL"], ['A', "O'NEIL"], ['A', 'B', "it's"], ["x'y", 'A']):
@@ -567,7 +577,15 @@ def vary_envelope(rng, text, prob=0.25):
         return text
     from xml.etree import ElementTree as ET
     root = ET.fromstring(text)
-    how = rng.choice(['no-ncs', 'no-mos', 'extra-before', 'extra-first'])
+    how = rng.choice(['no-ncs', 'no-mos', 'extra-before', 'extra-first', 'header-last'])
+    if how == 'header-last':
+        # mosID / ncsID / messageID after the message element: the library finds them by name, not by position
+        head = [c for c in root if c.tag in ('mosID', 'ncsID', 'messageID')]
+        for c in head:
+            root.remove(c)
+        for c in head:
+            root.append(c)
+        return ET.tostring(root, encoding='unicode')
     if how == 'no-ncs' and root.find('ncsID') is not None:
         root.remove(root.find('ncsID'))
     elif how == 'no-mos' and root.find('mosID') is not None:
